@@ -1,6 +1,6 @@
 #include "simk.h"
 
-extern const struct driver drv_smoke, drv_c02, drv_c03, drv_c14, drv_c07, drv_c13, drv_c05, drv_c01, drv_c04, drv_c16, drv_c09, drv_c06, drv_c12, drv_c11, drv_c08, drv_c15, drv_c20;
+extern const struct driver drv_smoke, drv_c02, drv_c03, drv_c14, drv_c07, drv_c13, drv_c05, drv_c01, drv_c04, drv_c16, drv_c09, drv_c06, drv_c12, drv_c11, drv_c08, drv_c15, drv_c20, drv_c10s;
 
 const struct driver *const all_drivers[] = {
 	&drv_smoke,
@@ -20,5 +20,6 @@ const struct driver *const all_drivers[] = {
 	&drv_c08,
 	&drv_c15,
 	&drv_c20,
+	&drv_c10s,
 	NULL,
 };
